@@ -104,6 +104,9 @@ theorem tok_q_close (env : Env) (rest : Bytes) (args : List Bytes) (arg ch : Byt
 def AllBlank (b : Bytes) : Prop := ∀ c ∈ b, isBlank c = true
 def AllOrdinary (u : Bytes) : Prop := ∀ c ∈ u, Ordinary c
 
+instance (b : Bytes) : Decidable (AllBlank b) := by unfold AllBlank; infer_instance
+instance (u : Bytes) : Decidable (AllOrdinary u) := by unfold AllOrdinary; infer_instance
+
 /-- Leading / separating blanks are skipped when no argument is pending. -/
 theorem tok_blanks (env : Env) (b rest : Bytes) (args : List Bytes) (hb : AllBlank b) :
     tok env (b ++ rest) args [] none false = tok env rest args [] none false := by
